@@ -191,9 +191,9 @@ Qed.
 
 Lemma e2_tle_close : forall id x, e2_tle x (wm_ts_close id x).
 Proof.
-  intros id x. unfold wm_ts_close. generalize wm_close_levels. intro l. revert x.
+  intros id x. unfold wm_ts_close. generalize wm_close_levels. generalize wm_level_count. intros fu l. revert x.
   induction l as [|lv l IH]; intro x; cbn [fold_left]; [apply e2_ble_refl|].
-  eapply e2_ble_trans; [apply (e2_tle_commit wm_level_count id true lv x)|apply IH].
+  eapply e2_ble_trans; [apply (e2_tle_commit fu id true lv x)|apply IH].
 Qed.
 
 (* ---- WmFsr ---- *)
@@ -211,7 +211,7 @@ Lemma e2_fle_wr_summary : forall fuel d level x, e2_fle x (wm_fsr_wr_summary sum
 Proof.
   induction fuel as [|fu IH]; intros d level x; cbn [wm_fsr_wr_summary]; [apply e2_ble_fault|].
   destruct (wm_f_get_level (wm_fx_fsr x) level) as [lv|]; [|apply e2_ble_fault].
-  match goal with |- context [if ?c then x else _] => destruct c end; [apply e2_fle_refl|].
+  match goal with |- context [if ?c then x else _] => destruct c end; [apply e2_ble_refl|].
   cbv zeta.
   match goal with |- context [let '(b1, t1) := ?E in _] => assert (H1 : e2_ble (wm_fx_base x) (fst E)); [|destruct E as [b1 t1]] end.
   { destruct (wm_fl_nidx lv =? 0); [apply e2_ble_refl|apply e2_ble_core_wr_index]. }
@@ -233,15 +233,15 @@ Lemma e2_fle_summary1 : forall d pos samples x, e2_fle x (wm_fsr_summary1 summ1 
 Proof.
   intros d pos samples x. unfold wm_fsr_summary1.
   destruct (wm_f_get_level _ 1) as [dst|]; [|apply e2_ble_fault].
-  match goal with |- context [if ?c then _ else _] => destruct c end; [|apply e2_fle_refl].
+  match goal with |- context [if ?c then _ else _] => destruct c end; [|apply e2_ble_refl].
   match goal with |- e2_fle _ (wm_fsr_wr_summary _ ?f ?d ?l ?y) => exact (e2_fle_wr_summary f d l y) end.
 Qed.
 
 Lemma e2_fle_wr_data : forall d x, e2_fle x (wm_fsr_wr_data summ1 summN d x).
 Proof.
-  intros d x. unfold wm_fsr_wr_data. destruct (wm_f_count (wm_fx_fsr x) =? 0); [apply e2_fle_refl|]. cbv zeta.
+  intros d x. unfold wm_fsr_wr_data. destruct (wm_f_count (wm_fx_fsr x) =? 0); [apply e2_ble_refl|]. cbv zeta.
   match goal with |- context [let '(x1, pos1) := ?E in _] => assert (H1 : e2_fle x (fst E)); [|destruct E as [x1 pos1]] end.
-  { match goal with |- context [if ?c then (x, 0) else _] => destruct c end; [apply e2_fle_refl|].
+  { match goal with |- context [if ?c then (x, 0) else _] => destruct c end; [apply e2_ble_refl|].
     match goal with |- context [wm_core_wr_data ?b ?i ?t ?p ?n] => pose proof (e2_ble_core_wr_data b i t p n) as H; destruct (wm_core_wr_data b i t p n) as [b1 t1] end.
     exact H. }
   cbn [fst] in H1. unfold e2_fle. cbn [wm_fx_set_fsr wm_fx_base].
@@ -250,7 +250,7 @@ Qed.
 
 Lemma e2_fle_summary_close : forall d x level, e2_fle x (wm_fsr_summary_close summN d x level).
 Proof.
-  intros d x level. unfold wm_fsr_summary_close. destruct (wm_f_get_level (wm_fx_fsr x) level); [|apply e2_fle_refl].
+  intros d x level. unfold wm_fsr_summary_close. destruct (wm_f_get_level (wm_fx_fsr x) level); [|apply e2_ble_refl].
   unfold e2_fle. cbn [wm_fx_set_fsr wm_fx_base]. apply e2_fle_wr_summary.
 Qed.
 
@@ -258,34 +258,34 @@ Lemma e2_fle_close : forall d x, e2_fle x (wm_fsr_close summ1 summN d x).
 Proof.
   intros d x. unfold wm_fsr_close.
   match goal with |- e2_fle _ (fold_left _ _ ?X1) => assert (H1 : e2_fle x X1) end.
-  { destruct (wm_f_alloc (wm_fx_fsr x)); [|apply e2_fle_refl]. unfold e2_fle. cbn [wm_fx_set_fsr wm_fx_base]. apply e2_fle_wr_data. }
+  { destruct (wm_f_alloc (wm_fx_fsr x)); [|apply e2_ble_refl]. unfold e2_fle. cbn [wm_fx_set_fsr wm_fx_base]. apply e2_fle_wr_data. }
   eapply e2_fle_trans; [exact H1|]. generalize wm_fsr_close_levels. intro l.
   match goal with |- e2_fle ?A _ => generalize A end. clear H1.
-  induction l as [|lv l IH]; intro y; cbn [fold_left]; [apply e2_fle_refl|].
+  induction l as [|lv l IH]; intro y; cbn [fold_left]; [apply e2_ble_refl|].
   eapply e2_fle_trans; [apply e2_fle_summary_close|apply IH].
 Qed.
 
 Lemma e2_fle_wr_inner : forall fuel d x data n, e2_fle x (wm_fsr_wr_inner summ1 summN fuel d x data n).
 Proof.
   induction fuel as [|fu IH]; intros d x data n; cbn [wm_fsr_wr_inner].
-  - destruct (n =? 0); [apply e2_fle_refl|apply e2_ble_fault].
-  - destruct (n =? 0); [apply e2_fle_refl|]. cbv zeta.
+  - destruct (n =? 0); [apply e2_ble_refl|apply e2_ble_fault].
+  - destruct (n =? 0); [apply e2_ble_refl|]. cbv zeta.
     eapply e2_fle_trans; [|apply IH].
-    match goal with |- context [if ?c then _ else _] => destruct c end; [|apply e2_fle_refl].
+    match goal with |- context [if ?c then _ else _] => destruct c end; [|apply e2_ble_refl].
     match goal with |- e2_fle _ (wm_fsr_wr_data _ _ ?d ?y) => exact (e2_fle_wr_data d y) end.
 Qed.
 
 Lemma e2_fle_gap_loop : forall fuel d x skip bs, e2_fle x (wm_fsr_gap_loop summ1 summN fuel d x skip bs).
 Proof.
   induction fuel as [|fu IH]; intros d x skip bs; cbn [wm_fsr_gap_loop].
-  - destruct (skip =? 0); [apply e2_fle_refl|apply e2_ble_fault].
-  - destruct (skip =? 0); [apply e2_fle_refl|]. cbv zeta.
+  - destruct (skip =? 0); [apply e2_ble_refl|apply e2_ble_fault].
+  - destruct (skip =? 0); [apply e2_ble_refl|]. cbv zeta.
     eapply e2_fle_trans; [|apply IH]. apply e2_fle_wr_inner.
 Qed.
 
 Lemma e2_fle_data : forall d x sid samples, e2_fle x (wm_fsr_data summ1 summN d x sid samples).
 Proof.
-  intros d x sid samples. unfold wm_fsr_data. destruct (N.of_nat (length samples) =? 0); [apply e2_fle_refl|]. cbv zeta.
+  intros d x sid samples. unfold wm_fsr_data. destruct (N.of_nat (length samples) =? 0); [apply e2_ble_refl|]. cbv zeta.
   match goal with |- context [wm_fx_set_fsr x ?F1] => set (x1 := wm_fx_set_fsr x F1) end.
   assert (H1 : e2_fle x x1) by apply e2_ble_refl.
   destruct (_ =? _)%Z; [eapply e2_fle_trans; [exact H1|apply e2_fle_wr_inner]|].
@@ -303,7 +303,7 @@ Proof. intros a b c. apply e2_ble_trans. Qed.
 
 Lemma e2_sle_user_data : forall st u, e2_sle st (fst (wm_api_user_data st u)).
 Proof.
-  intros st u. unfold wm_api_user_data. destruct (3 <? ud_stype u); [apply e2_sle_refl|]. cbv zeta.
+  intros st u. unfold wm_api_user_data. destruct (3 <? ud_stype u); [apply e2_ble_refl|]. cbv zeta.
   match goal with |- context [wm_raw_wr ?r ?h ?p] =>
     pose proof (e2_rle_wr_link r h p (wm_b_ud_head (wm_st_base st)) (wm_raw_chunk_tell (wm_b_raw (wm_st_base st)))) as H;
     destruct (wm_raw_wr r h p) as [r1 h1] end.
@@ -312,8 +312,8 @@ Qed.
 
 Lemma e2_sle_source_def : forall st d, e2_sle st (fst (wm_api_source_def st d)).
 Proof.
-  intros st d. unfold wm_api_source_def. destruct (JLS_SOURCE_COUNT <=? so_id d); [apply e2_sle_refl|].
-  destruct (existsb _ _); [apply e2_sle_refl|]. destruct (negb _); [apply e2_sle_refl|]. cbv zeta.
+  intros st d. unfold wm_api_source_def. destruct (JLS_SOURCE_COUNT <=? so_id d); [apply e2_ble_refl|].
+  destruct (existsb _ _); [apply e2_ble_refl|]. destruct (negb _); [apply e2_ble_refl|]. cbv zeta.
   match goal with |- context [wm_raw_wr ?r ?h ?p] =>
     pose proof (e2_rle_wr_link r h p (wm_b_source_head (wm_st_base st)) (wm_raw_chunk_tell (wm_b_raw (wm_st_base st)))) as H;
     destruct (wm_raw_wr r h p) as [r1 h1] end.
@@ -328,15 +328,15 @@ Qed.
 Lemma e2_sle_signal_def : forall st d0, e2_sle st (fst (wm_api_signal_def st d0)).
 Proof.
   intros st d0. unfold wm_api_signal_def.
-  destruct (JLS_SIGNAL_COUNT <=? sg_id d0); [apply e2_sle_refl|].
-  destruct (JLS_SOURCE_COUNT <=? sg_src d0); [apply e2_sle_refl|].
-  destruct (negb (existsb _ _)); [apply e2_sle_refl|].
-  destruct (wm_find_sig st (sg_id d0)); [apply e2_sle_refl|].
-  destruct (negb (_ || _)); [apply e2_sle_refl|].
-  destruct (negb (_ && _)); [apply e2_sle_refl|].
-  destruct (negb (wm_dt_valid _)); [apply e2_sle_refl|].
-  destruct (wm_sig_align d0) as [d|]; [|apply e2_sle_refl].
-  destruct (_ && _); [apply e2_sle_refl|]. cbv zeta.
+  destruct (JLS_SIGNAL_COUNT <=? sg_id d0); [apply e2_ble_refl|].
+  destruct (JLS_SOURCE_COUNT <=? sg_src d0); [apply e2_ble_refl|].
+  destruct (negb (existsb _ _)); [apply e2_ble_refl|].
+  destruct (wm_find_sig st (sg_id d0)); [apply e2_ble_refl|].
+  destruct (negb (_ || _)); [apply e2_ble_refl|].
+  destruct (negb (_ && _)); [apply e2_ble_refl|].
+  destruct (negb (wm_dt_valid _)); [apply e2_ble_refl|].
+  destruct (wm_sig_align d0) as [d|]; [|apply e2_ble_refl].
+  destruct (_ && _); [apply e2_ble_refl|]. cbv zeta.
   match goal with |- context [wm_raw_wr ?r ?h ?p] =>
     pose proof (e2_rle_wr_link r h p (wm_b_signal_head (wm_st_base st)) (wm_raw_chunk_tell (wm_b_raw (wm_st_base st)))) as H;
     destruct (wm_raw_wr r h p) as [r1 h1] end.
@@ -358,8 +358,8 @@ Qed.
 Lemma e2_sle_omit : forall st sig en, e2_sle st (fst (wm_api_fsr_omit_data st sig en)).
 Proof.
   intros st sig en. unfold wm_api_fsr_omit_data.
-  destruct (wm_signal_validate_typed st sig JLS_SIGNAL_TYPE_FSR) as [rc os]. destruct rc; [|apply e2_sle_refl].
-  destruct os as [s|]; [|apply e2_sle_refl]. destruct (wm_sg_fsr s); [apply e2_sle_refl|apply e2_ble_fault].
+  destruct (wm_signal_validate_typed st sig JLS_SIGNAL_TYPE_FSR) as [rc os]. destruct rc; [|apply e2_ble_refl].
+  destruct os as [s|]; [|apply e2_ble_refl]. destruct (wm_sg_fsr s); [apply e2_ble_refl|apply e2_ble_fault].
 Qed.
 
 Lemma e2_sle_ts_write : forall st sig s (ts : wm_ts) t h payload key se (setf : wm_signal -> wm_track -> option wm_ts -> wm_signal),
@@ -382,10 +382,10 @@ Qed.
 Lemma e2_sle_annotation : forall st sig a, e2_sle st (fst (wm_api_annotation st sig a)).
 Proof.
   intros st sig a. unfold wm_api_annotation.
-  destruct (wm_signal_validate st sig) as [rc os]. destruct rc; [|apply e2_sle_refl].
-  destruct os as [s|]; [|apply e2_sle_refl].
-  destruct (256 <=? an_type a); [apply e2_sle_refl|]. destruct (256 <=? an_stype a); [apply e2_sle_refl|].
-  destruct (negb _); [apply e2_sle_refl|].
+  destruct (wm_signal_validate st sig) as [rc os]. destruct rc; [|apply e2_ble_refl].
+  destruct os as [s|]; [|apply e2_ble_refl].
+  destruct (256 <=? an_type a); [apply e2_ble_refl|]. destruct (256 <=? an_stype a); [apply e2_ble_refl|].
+  destruct (negb _); [apply e2_ble_refl|].
   destruct (wm_sg_anno s) as [ts|]; [|apply e2_ble_fault].
   apply (e2_sle_ts_write st sig s ts (wm_sg_tk_anno s) _ _ _ _ wm_sg_set_anno).
 Qed.
@@ -393,8 +393,8 @@ Qed.
 Lemma e2_sle_utc : forall st sig sid utc, e2_sle st (fst (wm_api_utc st sig sid utc)).
 Proof.
   intros st sig sid utc. unfold wm_api_utc.
-  destruct (wm_signal_validate_typed st sig JLS_SIGNAL_TYPE_FSR) as [rc os]. destruct rc; [|apply e2_sle_refl].
-  destruct os as [s|]; [|apply e2_sle_refl].
+  destruct (wm_signal_validate_typed st sig JLS_SIGNAL_TYPE_FSR) as [rc os]. destruct rc; [|apply e2_ble_refl].
+  destruct os as [s|]; [|apply e2_ble_refl].
   destruct (wm_sg_utc s) as [ts|]; [|apply e2_ble_fault].
   apply (e2_sle_ts_write st sig s ts (wm_sg_tk_utc s) _ _ _ _ wm_sg_set_utc).
 Qed.
@@ -405,8 +405,8 @@ Proof. intro st. unfold wm_api_flush, e2_sle, e2_ble. cbn [fst wm_st_set_base wm
 Lemma e2_sle_fsr : forall st sig sid samples, e2_sle st (fst (wm_api_fsr summ1 summN st sig sid samples)).
 Proof.
   intros st sig sid samples. unfold wm_api_fsr.
-  destruct (wm_signal_validate_typed st sig JLS_SIGNAL_TYPE_FSR) as [rc os]. destruct rc; [|apply e2_sle_refl].
-  destruct os as [s|]; [|apply e2_sle_refl].
+  destruct (wm_signal_validate_typed st sig JLS_SIGNAL_TYPE_FSR) as [rc os]. destruct rc; [|apply e2_ble_refl].
+  destruct os as [s|]; [|apply e2_ble_refl].
   destruct (wm_sg_fsr s) as [f|]; [|apply e2_ble_fault].
   unfold e2_sle. cbn [fst wm_put_sig wm_st_base].
   match goal with |- e2_ble _ (wm_fx_base (wm_fsr_data _ _ ?d ?x ?i ?sm)) => exact (e2_fle_data d x i sm) end.
@@ -414,7 +414,7 @@ Qed.
 
 Lemma e2_sle_close_signal : forall st id, e2_sle st (wm_close_signal summ1 summN st id).
 Proof.
-  intros st id. unfold wm_close_signal. destruct (wm_find_sig st id) as [s|]; [|apply e2_sle_refl].
+  intros st id. unfold wm_close_signal. destruct (wm_find_sig st id) as [s|]; [|apply e2_ble_refl].
   match goal with |- context [let '(b1, s1) := ?E in _] => assert (H1 : e2_ble (wm_st_base st) (fst E)); [|destruct E as [b1 s1]] end.
   { destruct (wm_sg_fsr s) as [f|]; [|apply e2_ble_refl]. cbn [fst].
     match goal with |- e2_ble _ (wm_fx_base (wm_fsr_close _ _ ?d ?x)) => exact (e2_fle_close d x) end. }
@@ -434,7 +434,7 @@ Lemma e2_sle_close : forall st, e2_sle st (wm_api_close summ1 summN st).
 Proof.
   intro st. unfold wm_api_close. cbv zeta.
   assert (H1 : forall l st0, e2_sle st0 (fold_left (wm_close_signal summ1 summN) l st0)).
-  { induction l as [|id l IH]; intro st0; cbn [fold_left]; [apply e2_sle_refl|].
+  { induction l as [|id l IH]; intro st0; cbn [fold_left]; [apply e2_ble_refl|].
     eapply e2_sle_trans; [apply e2_sle_close_signal|apply IH]. }
   eapply e2_sle_trans; [apply (H1 wm_signal_ids st)|].
   unfold e2_sle, e2_ble. cbn [wm_st_set_base wm_st_base wm_b_set_raw wm_b_raw].
@@ -456,7 +456,7 @@ Qed.
 
 Lemma e2_sle_steps : forall p st rcs, e2_sle st (fst (wm_steps summ1 summN st p rcs)).
 Proof.
-  induction p as [|o p IH]; intros st rcs; cbn [wm_steps]; [apply e2_sle_refl|].
+  induction p as [|o p IH]; intros st rcs; cbn [wm_steps]; [apply e2_ble_refl|].
   pose proof (e2_sle_step st o) as H. destruct (wm_step_rc summ1 summN st o) as [st1 rc]. cbn [fst] in H.
   eapply e2_sle_trans; [exact H|apply IH].
 Qed.
